@@ -85,6 +85,9 @@ def specEnvStr : Env Str.SPred Str.SOw Nat Bytes :=
     | p => Str.holds p b,
    StrU.apply, Str.customTr⟩
 
+/-- The numeric checks as they evaluate on a value of a NAMED numeric type: every one is false. -/
+def namedEnv : Env NumChecks.NPred Unit Unit Num := ⟨fun _ _ => false, fun _ v => v, fun _ v => v⟩
+
 def specAll {P O T V} (env : Env P O T V) (cs : List (Check P O)) (v : V) : Bool :=
   (List.range cs.length).all fun k => !failsAt env cs k v
 
@@ -99,7 +102,16 @@ def handleLine (line : String) : String :=
   match lhs.splitOn " | " with
   | [schema, input] =>
     let inToks := (input.splitOn " ").filter (· ≠ "")
-    match (schema.splitOn " ").filter (· ≠ "") with
+    -- families ending in `N`: the schema is a generic constructor of package types instantiated with a NAMED Go type
+    -- (types.StringTyped[myStr], IntegerTyped[myInt], FloatTyped[myF64], BoolTyped[myBool]) and the input is a value of
+    -- that named type (or a pointer to one): the schema's own Go type
+    let toks0 := (schema.splitOn " ").filter (· ≠ "")
+    let (named, toks1) : Bool × List String := match toks0 with
+      | "c01" :: "strN" :: r => (true, "c01" :: "str" :: r)
+      | "c01" :: "numN" :: r => (true, "c01" :: "num" :: r)
+      | "c01" :: "boolN" :: r => (true, "c01" :: "bool" :: r)
+      | t => (false, t)
+    match toks1 with
     | "c01" :: "str" :: cp :: n :: ctoks =>
       match n.toNat?.bind (fun n => parseChecks n ctoks) with
       | some (cs, []) =>
@@ -113,7 +125,10 @@ def handleLine (line : String) : String :=
         match inp with
         | none => "bad-op"
         | some x =>
-          let m := renderOut hex (parse StrU.env i x)
+          -- `strN` = types.StringTyped[myStr]: ZodString parses the base type `string` whatever T is
+          -- (engine.ParsePrimitive[string, T]): a value of the named type — the schema's own Go type — is a
+          -- foreign kind for `parsePrimitiveValue`
+          let m := renderOut hex (parse StrU.env i (if named then .foreign else x))
           let acc := match x with
             | .val v | .ptr v => if specAll specEnvStr cs v then some (hex (seenAt specEnvStr cs cs.length v)) else none
             | _ => none
@@ -132,7 +147,9 @@ def handleLine (line : String) : String :=
         | none => "bad-op"
         | some x =>
           let rv := fun (_ : Num) => match inToks with | _ :: v :: _ => s!"{kind}:{v}" | _ => "?"
-          let m := renderOut rv (parse NumChecks.env i x)
+          -- named operand: `reflectx.IsNumeric` / the type switches of `validate.toNum`, `Float.Finite`, `Float.Int` list
+          -- the predeclared types only, so every built-in check takes its `default: false` branch (`namedEnv`)
+          let m := renderOut rv (parse (if named then namedEnv else NumChecks.env) i x)
           let acc := match x with
             | .val v | .ptr v => if specAll NumChecks.specEnv cs v then some (rv v) else none
             | _ => none
@@ -159,7 +176,8 @@ def handleLine (line : String) : String :=
       | none => "bad-op"
       | some (x, _) =>
         let rv := fun (b : Bool) => if b then "bool:true" else "bool:false"
-        let m := renderOut rv (parse env i x)
+        -- BoolTyped[myBool]: ZodBool parses the base type `bool` whatever T is — the named value is a foreign kind
+        let m := renderOut rv (parse env i (if named then .foreign else x))
         let acc := match x with
           | .val v | .ptr v => if specAll env cs v then some (rv v) else none
           | _ => none
